@@ -324,11 +324,23 @@ def check_top_level(ctx, db):
     conds = [norm(l.child('cond').text(ren)) for l in loops]
     ok = len(loops) == 4 and sum(1 for c in conds if c.endswith('< this->cell_array.count)')) == 2 and sum(1 for c in conds if c.endswith('< this->rawcell_array.count)')) == 2
     ctx.check(ok, 'R-AGG', 'top_level/all-cells-and-rawcells', f.loc(), 'both passes run over all cells and all raw cells')
-    keep = [i for i in f.walk() if i.k == 'IfStmt' and '.get(' in i.child('cond').text()]
-    ok = len(keep) == 2
-    for i in keep:
-        c = _strip_casts(i.child('cond'))
-        ok = ok and c.k == 'BinaryOperator' and c.op == '!=' and norm(c.child('lhs').text(ren)).endswith('.get(%s->name)' % norm(c.child('rhs').text(ren))) and 'append(%s)' % norm(c.child('rhs').text(ren)) in norm(i.child('then').text(ren))
+    # from path conditions (if / guard clause + continue, either operand order, == or !=): each output array receives the cell exactly when
+    # the dependency map looked up under the cell's own name does not return that very cell
+    apps = [c for c in f.walk() if c.k == 'CXXMemberCallExpr' and (c.callee or '').endswith('::append') and _strip_casts(c.child('obj')).k == 'DeclRefExpr' and _strip_casts(c.child('obj')).dk == 'param']
+    ok = len(apps) == 2 and {_strip_casts(c.child('obj')).n for c in apps} == {p_['n'] for p_ in f.params}
+    for c in apps:
+        lp_ = next((a for a in c.ancestors() if a.k in ('ForStmt', 'WhileStmt', 'DoStmt')), None)
+        pcs = tables.path_conds(c, stop=lp_)
+        item = norm(c.args[0].text(ren)) if c.args else None
+        good = lp_ is not None and len(pcs) == 1 and item is not None
+        if good:
+            cnd, pol = pcs[0]
+            cnd = _strip_casts(cnd)
+            good = cnd.k == 'BinaryOperator' and cnd.op in ('==', '!=') and (cnd.op == '!=') == pol
+            if good:
+                sides = [norm(cnd.child('lhs').text(ren)), norm(cnd.child('rhs').text(ren))]
+                good = item in sides and any(x.endswith('_deps.get(%s->name)' % item) or x.endswith('.get(%s->name)' % item) for x in sides if x != item)
+        ok = ok and good
     ctx.check(ok, 'R-SHAPE', 'top_level/keeps-unreferenced', f.loc(), 'a cell is top-level iff the dependency map does not hold that very cell under its name')
 
 
